@@ -1068,6 +1068,55 @@ func (g *gen) floatFoldCases() []Case {
 	return cases
 }
 
+
+// constant loops (an @for that never reads the context) of sizes between "small" and the iteration cap:
+// the optimiser evaluates them once, under its probe, and folds the result - which must be what the plain
+// builder computes at run time. Directly, with the bound as a capture, and inside funcs-file functions
+// (constant body next to a parameter / start value passed as a constant argument); reduced by @len / @select so that the
+// output stays small. Equality-only.
+func (g *gen) constLoopCases() []Case {
+	r := g.r
+	mk := func(vals ...string) Ctx { return Ctx{M: vals, K: map[string]string{}} }
+	sizes := []int{9999, 10001, 20000, 65537, 250000, r.Range(10002, 99999), r.Range(100, 9998)}
+	var cases []Case
+	for k, n := range sizes {
+		N := fmt.Sprint(n)
+		loop := func(bound string) string {
+			if k%2 == 0 {
+				return `{@for 0 {lt {0} ` + bound + `} {sumi {0} 1}}`
+			}
+			return `{@for 1 {lte {1} ` + bound + `} {sumi {0} 2}}` // condition on the round counter
+		}
+		direct := `{@len ` + loop(N) + `}/{@select ` + loop(N) + ` -1}`
+		// written bound (folded under the probe) vs the plain builder; for one size also vs the bound read
+		// from a named key, which the probe cannot fold (inside the binder {0} {1} are the loop value and the
+		// round counter, keys pass through). A key-bound loop costs 1,000,000 probe rounds per enclosing stage.
+		kctx := Ctx{M: []string{"x"}, K: map[string]string{"n": N}}
+		items := []AltItem{{direct, kctx}}
+		if k == 2 {
+			items = append(items, AltItem{`{@len ` + loop("{n}") + `}/` + fmt.Sprint(map[bool]int{true: n - 1, false: 2*n + 1}[k%2 == 0]), kctx})
+			items[0].Tmpl = `{@len ` + loop(N) + `}/{@select ` + loop(N) + ` -1}`
+		}
+		e := &EqIn{Kind: "alt", Alts: [][]AltItem{items}}
+		tags := []string{"const-loop", fmt.Sprintf("const-loop:%d", n)}
+		cases = append(cases, mkEqCase(e, runEq(e), tags))
+		if k < 5 {
+			// inside a funcs-file function: a constant body next to a parameter; the start value passed as a
+			// constant argument (the whole call is then constant)
+			start := "0"
+			if k%2 == 1 {
+				start = "1"
+			}
+			from := strings.Replace(loop(N), "{@for "+start+" ", "{@for {0} ", 1)
+			f := &EqIn{Kind: "lib", Funcs: "cnt {@len " + loop(N) + "}-{0}\nfrom {@len " + from + "}\n",
+				Call: "{cnt {0}} {from " + start + "}", Inlined: "{@len " + loop(N) + "}-{0} {@len " + loop(N) + "}",
+				Ctxs: []Ctx{mk("x"), mk()}}
+			cases = append(cases, mkEqCase(f, runEq(f), append(tags, "const-loop-in-function")))
+		}
+	}
+	return cases
+}
+
 // integer folds with two different error conditions among their operands (a zero divisor and a
 // non-integer), the offending operand being a constant, a capture, or a (missing) function parameter:
 // the marker must not depend on what is constant. Modelled cases.
@@ -1815,6 +1864,7 @@ func c10Gen(r *Rng, n int, tier string) []Case {
 	cases = append(cases, g.eqSeqCases()...)
 	cases = append(cases, g.eqMathCases()...)
 	cases = append(cases, g.floatFoldCases()...)
+	cases = append(cases, g.constLoopCases()...)
 	cases = append(cases, g.eqFnTimeCases()...)
 	cases = append(cases, g.eqCliCases()...)
 	if rareBin != "" {
@@ -1853,6 +1903,7 @@ func main() {
 			"12 operand-order cases (divi / modi with a zero divisor and a non-integer operand, the offending operand a constant, a capture, or a present / missing parameter of a funcs-file function; sumi / multi for comparison), modelled: call = inlined body, optimising = plain; " +
 			"9 functions-file cases with significant white space (runs of 2-3 blanks and tabs in literal text and inside quoted arguments, leading blanks after the name, blanks before a continuation backslash, a tab instead of the blank after the name), modelled: loader result, call and inlined body byte for byte; " +
 			"14 formula cases ({! ..}, one per operator * & && || + - / | % ^ == < >= <<): a constant operand written in the formula (0 1 2 0.5 (3-3) (0-1) (2*0) (1||0), on either side, bare or inside a larger formula) vs the same constant read from a group, for values of the variable among 5 -3 0 2.5 -0 empty missing text inf -inf nan 1e400, optimising and plain builder: all equal (compile-time folding must give the run-time value); " +
+			"12 constant-loop cases (an @for that never reads the context, 9,999 / 10,001 / 20,000 / 65,537 / 250,000 rounds and two seeded sizes, condition on the value or on the round counter, reduced by @len and @select -1): the bound written in the template vs read from a named key, and inside funcs-file functions (constant loop next to a parameter, start value passed as a constant argument) vs the inlined body; optimising and plain builder, all equal; " +
 			"20 float-fold cases (sumf subf multf divf, 3-5 operands, constants first / last / interleaved / single / random, values among 0.1 0.2 0.3 0.7 1e16 -1e16 1 3 10 1e-17 1e308 0.5 -0.1 1e-320 where re-association changes the result): per operator one case of 15 pairs 'constant written in the template vs the same constant read from a group' and 4 cases of a funcs-file function over its parameters called with constant and mixed arguments vs the inlined body; optimising and plain builder, all equal; " +
 			"18 sequence cases (time / buckettime / timeformat / timeattr with explicit format and time-zone arguments, named formats, a constant prefix plus a capture, a named key, nested in sumi/timeformat, durations, floats/json/format; 3 with the auto-detected layout): three evaluation sequences per template on ONE compiled expression - the all-empty context (the optimiser's probe value) first, unparseable values, the same value on consecutive evaluations, a bad value first, a seeded shuffle - step by step: optimising = plain = a fresh plain compile = a fresh optimising compile of that step (for the auto-detected layout, which is remembered by design, only optimising = plain); " +
 			"11 funcs-file cases whose body reaches time/buckettime (auto-detected layout, remembered by the stage), timeformat, timeattr, duration through {i}, a later definition calling an earlier one, called with arguments mixing constant text and captures: call (optimising, plain) = inlined body (optimising, plain) on every context, every builder compiled freshly; " +
